@@ -285,6 +285,28 @@ theorem repair_any_garbage_third_exact (P : Rat) (sg : Bool) (nowYear : Int) (hd
           = ((lineIdx sg r0.nums[i] : Int) : Rat) * P + passOffset P sg r0) :=
   Times.repair_any_garbage_third_exact P sg nowYear hd r0 r good h hP hdec hbad hhead
 
+/-- ... the guarantee for garbage in the ms field of fewer than HALF of the lines (`repair_ms_garbage`) is exact as well:
+every intact line is returned at exactly its recorded (= true) time, every line whose sanitised time was further than
+10 s off at exactly its true time, every line within 10 s -/
+theorem repair_ms_garbage_exact (P : Rat) (sg : Bool) (nowYear : Int) (h : Int) (r : RawTimes)
+    (hc : Clean nowYear r) (hy : ∀ y ∈ r.year, y = r.year.headD 0) (hP : ∃ p : Int, P = (p : Rat))
+    (hdec : (sg && decreasing r.nums) = false)
+    (good : List Bool) (hglen : good.length = r.nums.length)
+    (hgood : ∀ i (hi : i < good.length), good[i] = true → GoodAt P sg r i)
+    (hmaj : r.nums.length < 2 * good.count true)
+    (hhead : absR (passOffset P sg r - (h : Rat)) ≤ 360000 - 2) :
+    (getTimes {} P nowYear sg (some h) r).length = r.nums.length ∧
+    ∀ i (hi : i < r.nums.length) (h1 : i < (getTimes {} P nowYear sg (some h) r).length)
+      (h2 : i < (recorded r).length) (h3 : i < good.length) (h4 : i < (s1Instants (stage1 P sg nowYear r)).length),
+      absR ((((getTimes {} P nowYear sg (some h) r)[i] : Int) : Rat)
+        - (((lineIdx sg r.nums[i] : Int) : Rat) * P + passOffset P sg r)) ≤ 10000 ∧
+      (good[i] = true → (getTimes {} P nowYear sg (some h) r)[i] = (recorded r)[i]) ∧
+      (absR ((((s1Instants (stage1 P sg nowYear r))[i] : Int) : Rat)
+          - (((lineIdx sg r.nums[i] : Int) : Rat) * P + passOffset P sg r)) > 10000 →
+        (((getTimes {} P nowYear sg (some h) r)[i] : Int) : Rat)
+          = ((lineIdx sg r.nums[i] : Int) : Rat) * P + passOffset P sg r) :=
+  Times.repair_ms_garbage_exact P sg nowYear h r hc hy hP hdec good hglen hgood hmaj hhead
+
 /-- ... and the 40 % guarantee (`repair_day_ms_garbage`, scenario `Garbled`) is exact in the same sense -/
 theorem repair_day_ms_garbage_exact (P : Rat) (sg : Bool) (nowYear : Int) (hd : Int) (r0 r : RawTimes) (good : List Bool)
     (h : Garbled P sg nowYear r0 r good) (hP : ∃ p : Int, P = (p : Rat))
